@@ -93,6 +93,7 @@ impl SourceFileAnalyzer {
             if self.program.has_line_number(basic_line_number) {
                 self.warn_line(i, "Redefinition of pre-existing BASIC line.");
             }
+            let mut defines_basic_line = false;
             let tokenize_result = Tokenizer::new(line, &mut self.string_manager)
                 .skip_bytes(line_number_end)
                 .remaining_tokens_and_ranges();
@@ -106,12 +107,19 @@ impl SourceFileAnalyzer {
                         self.warn_line(i, "Line contains no statements and will not be defined.");
                     } else {
                         self.program.set_numbered_line(basic_line_number, tokens);
+                        defines_basic_line = true;
                     }
                 }
                 Err(err) => self.messages.push(DiagnosticMessage::Error(i, err.into())),
             }
-            self.source_file_map
-                .add(basic_line_number, source_line_ranges);
+            if defines_basic_line {
+                self.source_file_map
+                    .add(basic_line_number, source_line_ranges);
+            } else {
+                // Don't let this file line shadow an earlier one that did
+                // define the BASIC line: the program still holds that one.
+                self.source_file_map.add_undefined(source_line_ranges);
+            }
             self.line_tokens.push(line_tokens);
         }
         self.lines = lines;
